@@ -48,6 +48,48 @@ pub struct Layout {
     pub coords: [i32; 6],
 }
 
+/// Hostile edits applied while assembling (C08): varint values of chosen directories, header
+/// fields, and byte-level damage of the finished file.
+#[derive(Clone, Debug, Default, PartialEq, Eq, Hash, Serialize, Deserialize)]
+pub struct Mutations {
+    /// (directory index in build order, value position selector, replacement)
+    pub dir: Vec<(u16, u16, MutVal)>,
+    /// (u64 header field 0..=10, replacement)
+    pub header: Vec<(u8, MutVal)>,
+    pub bytes: Vec<ByteMut>,
+}
+
+#[derive(Clone, Copy, Debug, PartialEq, Eq, Hash, Serialize, Deserialize)]
+pub enum MutVal {
+    Abs(u64),
+    /// original value plus a small delta (wrapping)
+    Rel(i8),
+    /// number of bytes remaining in the file/section plus a small delta
+    Remaining(i8),
+}
+
+#[derive(Clone, Copy, Debug, PartialEq, Eq, Hash, Serialize, Deserialize)]
+pub enum ByteMut {
+    /// keep only the first x/65536 of the file
+    Truncate(u16),
+    /// copy `len` bytes from position selector `from` over position selector `to`
+    Splice(u16, u16, u16),
+    /// set the byte at the position selector
+    Set(u16, u8),
+    /// swap the offsets of two sections in the header (0 root, 1 meta, 2 leaves, 3 data)
+    SwapSections(u8, u8),
+}
+
+impl MutVal {
+    pub fn apply(self, orig: u64, remaining: u64) -> u64 {
+        match self {
+            MutVal::Abs(v) => v,
+            MutVal::Rel(d) => orig.wrapping_add(d as i64 as u64),
+            MutVal::Remaining(d) => remaining.wrapping_add(d as i64 as u64),
+        }
+    }
+}
+
 #[derive(Clone, Debug, Default)]
 pub struct Facts {
     pub depth: u8,
@@ -112,8 +154,28 @@ struct Tree {
     depth: u8,
 }
 
+thread_local! {
+    static MUT_CTX: std::cell::RefCell<(Vec<(u16, u16, MutVal)>, u16, u32)> = const { std::cell::RefCell::new((Vec::new(), 0, 0)) };
+}
+
 fn enc(l: &Layout, es: &[SEntry]) -> Vec<u8> {
-    codec::compress(l.internal, &directory::encode(es, l.elide), l.params)
+    let mut vals = directory::values(es, l.elide);
+    MUT_CTX.with(|c| {
+        let mut c = c.borrow_mut();
+        let idx = c.1;
+        c.1 = c.1.wrapping_add(1);
+        if c.0.is_empty() {
+            return;
+        }
+        let raw_len = directory::from_values(&vals).len() as u64;
+        let muts: Vec<(u16, u16, MutVal)> = c.0.iter().filter(|m| m.0 == idx).copied().collect();
+        for (_, pos, v) in muts {
+            let p = pick(pos, vals.len());
+            vals[p] = v.apply(vals[p], raw_len);
+            c.2 += 1;
+        }
+    });
+    codec::compress(l.internal, &directory::from_values(&vals), l.params)
 }
 
 /// Build the directory tree for `tile_entries` with the requested depth / fan-out.
@@ -176,6 +238,89 @@ fn tree(l: &Layout, tile_entries: &[SEntry], depth: u8, fan1: usize, fan2: usize
 }
 
 pub fn build(l: &Layout) -> Built {
+    build_with(l, &Mutations::default()).0
+}
+
+/// Build with hostile edits; returns the archive and the number of edits that really changed something.
+pub fn build_with(l: &Layout, m: &Mutations) -> (Built, u32) {
+    MUT_CTX.with(|c| *c.borrow_mut() = (m.dir.clone(), 0, 0));
+    let mut b = build_plain(l);
+    let mut applied = MUT_CTX.with(|c| {
+        let mut c = c.borrow_mut();
+        let n = c.2;
+        *c = (Vec::new(), 0, 0);
+        n
+    });
+    // header fields
+    let mut h = b.header.clone();
+    let flen = b.bytes.len() as u64;
+    for (f, v) in &m.header {
+        let slot: &mut u64 = match f % 11 {
+            0 => &mut h.root_off,
+            1 => &mut h.root_len,
+            2 => &mut h.meta_off,
+            3 => &mut h.meta_len,
+            4 => &mut h.leaf_off,
+            5 => &mut h.leaf_len,
+            6 => &mut h.data_off,
+            7 => &mut h.data_len,
+            8 => &mut h.n_addressed,
+            9 => &mut h.n_entries,
+            _ => &mut h.n_contents,
+        };
+        let old = *slot;
+        *slot = v.apply(old, flen.saturating_sub(old.min(flen)));
+        if *slot != old {
+            applied += 1;
+        }
+    }
+    for bm in &m.bytes {
+        if let ByteMut::SwapSections(a, c) = bm {
+            let mut offs = [h.root_off, h.meta_off, h.leaf_off, h.data_off];
+            offs.swap(usize::from(a % 4), usize::from(c % 4));
+            if [h.root_off, h.meta_off, h.leaf_off, h.data_off] != offs {
+                applied += 1;
+            }
+            h.root_off = offs[0];
+            h.meta_off = offs[1];
+            h.leaf_off = offs[2];
+            h.data_off = offs[3];
+        }
+    }
+    b.bytes[..127].copy_from_slice(&h.encode());
+    b.header = h;
+    for bm in &m.bytes {
+        let n = b.bytes.len();
+        match *bm {
+            ByteMut::Truncate(f) => {
+                b.bytes.truncate(pick(f, n + 1));
+                applied += 1;
+            }
+            ByteMut::Splice(from, to, len) => {
+                let (f, t) = (pick(from, n), pick(to, n));
+                let l = usize::from(len).min(n - f).min(n - t);
+                let chunk = b.bytes[f..f + l].to_vec();
+                if b.bytes[t..t + l] != chunk[..] {
+                    applied += 1;
+                }
+                b.bytes[t..t + l].copy_from_slice(&chunk);
+            }
+            ByteMut::Set(p, v) => {
+                if n > 0 {
+                    let p = pick(p, n);
+                    if b.bytes[p] != v {
+                        applied += 1;
+                    }
+                    b.bytes[p] = v;
+                }
+            }
+            ByteMut::SwapSections(..) => {}
+        }
+    }
+    (b, applied)
+}
+
+fn build_plain(l: &Layout) -> Built {
     // 1. tile entries and data
     let contents: Vec<Vec<u8>> = l.pool.iter().map(ContentSpec::bytes).collect();
     let mut ids: Vec<(u64, u32, usize)> = Vec::new(); // id, run, pool index
